@@ -41,11 +41,13 @@ fn run_case(history: &[String], keys: &[usize]) -> Vec<Value> {
     verif::arm(None, &[], false);
     verif::set_keys(ks);
     let mut reads: Vec<(usize, String)> = Vec::new(); // (number of key events seen before, command)
+    case_begin(&format!("history {:?} keys {:?}", history, descr));
     let (_, ended) = guarded(|| loop {
         let cmd = term.verif_read().expect("terminal never reports EOF");
         let seen = verif::with_sink(|s| s.events.iter().filter(|(e, _)| matches!(e, Event::Key { .. })).count());
         reads.push((seen, cmd));
     });
+    case_end();
     let events = verif::disarm();
     let mut ki = 0usize;
     let mut ri = 0usize;
